@@ -503,6 +503,36 @@ def nt_key(S):
 
 
 # ------------------------------------------------------------------ check
+
+def _deep_tags(t):
+    return {k: _deep_tags(v) for k, v in t.items()} if isinstance(t, dict) else t
+
+
+def _scale_tags(t, f):
+    return {k: _scale_tags(v, f) for k, v in t.items()} if isinstance(t, dict) else t * f
+
+
+def alias_check(make_template, tbl_repo, fail, what):
+    """The instantiated grammar is a new grammar: normalise() of one of the two (it rewrites weights in place) must
+    not change the other.  Run on throw-away copies whose weights are NOT normalised (every weight times 3), because
+    normalising normalised weights changes nothing."""
+    for direction in ("instance", "template"):
+        try:
+            a = make_template()
+            b = a.instantiate_constants(tbl_repo)
+        except Exception:  # noqa  (reported by the main flow)
+            return
+        edited, other = (b, a) if direction == "instance" else (a, b)
+        before = _deep_tags(other.tags)
+        try:
+            edited.normalise()
+        except Exception:  # noqa  (empty rows: finding C17-F1 region, reported by the main flow)
+            return
+        if _deep_tags(other.tags) != before:
+            fail("oracle", f"{what}: the instantiated grammar shares weight tables with its template (normalise() of the {direction} changes the weights of the other grammar)", "")
+            return
+
+
 def check(case, M):
     import random
     from synth.syntax import CFG, DSL, UCFG, ProbDetGrammar, ProbUGrammar
@@ -607,6 +637,7 @@ def check(case, M):
     except Exception as e:  # noqa
         fail("oracle", "instantiate_constants raises", f"{type(e).__name__}: {e}")
         return {"key": keytxt, "nontrivial": False, "tags": tags, "failures": failures}
+    alias_check(lambda: ProbDetGrammar(cfg, _scale_tags(ptags, 3.0)), tbl_repo, fail, "ProbDetGrammar.instantiate_constants")
     if g2.type_request != cfg.type_request or p2.type_request != pg.type_request or p2.grammar.type_request != cfg.type_request:
         fail("oracle", "instantiate_constants changes the type request",
              f"{g2.type_request} / {p2.type_request} / {p2.grammar.type_request} instead of {cfg.type_request} / {pg.type_request} / {cfg.type_request}")
@@ -966,6 +997,7 @@ def check_u(case, M, cfg, tbl_repo, table, table_l, templates, expected, sample,
     except Exception as e:  # noqa
         fail("oracle", "UCFG/ProbUGrammar.instantiate_constants raises", f"{type(e).__name__}: {e}")
         return
+    alias_check(lambda: ProbUGrammar(u, _scale_tags(utags, 3.0), dict(start_tags)), tbl_repo, fail, "ProbUGrammar.instantiate_constants")
     if u2.type_request != u.type_request or pu2.type_request != pu.type_request or pu2.grammar.type_request != u.type_request:
         fail("oracle", "UCFG.instantiate_constants changes the type request", f"{u2.type_request} instead of {u.type_request}")
     if u2.starts != u.starts or pu2.start_tags != start_tags:
